@@ -45,110 +45,110 @@ public:
 
    HtModel(unsigned partMask, int ss, bool th, int lay) : mask(partMask), startSet(ss), thorough(th), layout(lay)
    {
-      const unsigned S = M_SMALL | M_FULL, C = M_CORE | M_SMALL | M_FULL, B = M_BOUND, H = M_HUGE, O = M_ORD, F = M_FULL, L = M_ALIAS;
+      const unsigned S = M_SMALL | M_FULL, C = M_CORE | M_SMALL | M_FULL, B = M_BOUND, W = M_BWIDE, H = M_HUGE, O = M_ORD, F = M_FULL, L = M_ALIAS;
       // keys: k0 (head), k3 (second), k1 (middle), k2 (tail) are present in the populated start states; k4, k5 are absent; k6 is never present
-      A(C | B | H | O | L, PUT, 0, 0, 5);          // existing key (head), new value
-      A(C | B | H | O | L, PUT, 5, 0, 3);          // new key (forces a regrow when the table is full)
+      A(C | W | H | O | L, PUT, 0, 0, 5);          // existing key (head), new value
+      A(C | W | H | O | L, PUT, 5, 0, 3);          // new key (forces a regrow when the table is full)
       A(S | O, PUT, 4, 0, 2);
       A(F | O, PUT, 3, 0, 1);
-      A(S | B | O, PUT_PREV, 1, 0, 4);
-      A(C | B | H, PUT_FRONT, 2, 0, 2);            // existing tail -> front
-      A(S | B, PUT_FRONT, 4, 0, 1);                // new key at front
-      A(S | B | H, PUT_BACK, 0, 0, 3);
-      A(C | B | H, PUT_BEFORE, 4, 1, 2);           // new key before the middle
-      A(S | B, PUT_BEFORE, 1, 0, 2);               // existing key moved
+      A(S | W | O, PUT_PREV, 1, 0, 4);
+      A(C | W | H, PUT_FRONT, 2, 0, 2);            // existing tail -> front
+      A(S | W, PUT_FRONT, 4, 0, 1);                // new key at front
+      A(S | W, PUT_BACK, 0, 0, 3);
+      A(C | W | H, PUT_BEFORE, 4, 1, 2);           // new key before the middle
+      A(S | W, PUT_BEFORE, 1, 0, 2);               // existing key moved
       A(F, PUT_BEFORE, 3, 3, 1);                   // before itself: documented to act like Put
-      A(S | B, PUT_BEHIND, 4, 0, 1);
-      A(C | B | H, PUT_BEHIND, 0, 2, 3);
+      A(S | W, PUT_BEHIND, 4, 0, 1);
+      A(C | W, PUT_BEHIND, 0, 2, 3);
       A(F, PUT_BEHIND, 3, 6, 1);                   // absent target: documented to act like Put
-      A(S | B | H, PUT_AT, 3, P1, 2);              // already at position 1: unconditional unlink/relink
-      A(C | B | H, PUT_AT, 0, PMID, 1);
-      A(F | B, PUT_AT, 1, PMID, 1);
+      A(S | W, PUT_AT, 3, P1, 2);              // already at position 1: unconditional unlink/relink
+      A(C | W | H, PUT_AT, 0, PMID, 1);
+      A(F | W | B, PUT_AT, 1, PMID, 1);
       A(F, PUT_AT, 2, PSIZE1, 1);
       A(S, PUT_AT, 5, P0, 1);
-      A(S | B | O, PUT_IFNOT, 4, 0, 5);
+      A(S | W | O, PUT_IFNOT, 4, 0, 5);
       A(F | O, PUT_IFNOT, 0, 0, 5);
-      A(S | B | O, GETORPUT, 5, 0, 4);
+      A(S | W | O, GETORPUT, 5, 0, 4);
       A(F | O, GETORPUT, 1, 0, 4);
       A(F | O, PUT_DEFAULT, 2);
       A(F | O, PUTANDGET, 3, 0, 2);
-      A(S | B | O, PUTORREMOVE, 1, 0, 0);          // value == default -> removes
+      A(S | W | O, PUTORREMOVE, 1, 0, 0);          // value == default -> removes
       A(F | O, PUTORREMOVE, 4, 0, 3);
-      A(S | B | H | O | L, PUT_SELFVAL, 4);        // value argument aliases the table's own storage (guarded in PutAux)
-      A(C | B | H | O, PUT_TABLE);
-      A(S | B | H, GET_MTF, 1);
-      A(S | B | H, GET_MTB, 0);
-      A(C | B | H | O | L, REMOVE, 0);
-      A(C | B | H | O, REMOVE, 1);
-      A(C | B | H | O, REMOVE, 2);
+      A(S | W | H | O | L | B, PUT_SELFVAL, 4);        // value argument aliases the table's own storage (guarded in PutAux)
+      A(C | W | O, PUT_TABLE);
+      A(S | W, GET_MTF, 1);
+      A(S | W, GET_MTB, 0);
+      A(C | W | H | O | L, REMOVE, 0);
+      A(C | W | H | O, REMOVE, 1);
+      A(C | W | H | O, REMOVE, 2);
       A(F, REMOVE, 3);
       A(F | O, REMOVE_RET, 1);
       A(F | O, REMOVE_DEF, 4);
-      A(C | B | H | O, REMOVE_FIRST);
-      A(C | B | H | O, REMOVE_LAST);
+      A(C | W | O, REMOVE_FIRST);
+      A(C | W | H | O, REMOVE_LAST);
       A(F | O, REMOVE_FIRST_KV);
       A(F | O, REMOVE_LAST_K);
-      A(S | B | H | O, REMOVE_TABLE);
-      A(S | B | O, REMOVE_SELF);
-      A(C | B | H | O, INTERSECT);
-      A(C | B | H, MTF, 1);
-      A(S | B, MTF, 2);
-      A(C | B | H, MTB, 0);
-      A(S | B, MTB, 1);
-      A(C | B | H, MBEFORE, 2, 0);
-      A(S | B, MBEFORE, 0, 1);
+      A(S | W | O, REMOVE_TABLE);
+      A(S | W | O, REMOVE_SELF);
+      A(C | W | H | O, INTERSECT);
+      A(C | W | H, MTF, 1);
+      A(S | W, MTF, 2);
+      A(C | W | H, MTB, 0);
+      A(S | W, MTB, 1);
+      A(C | W, MBEFORE, 2, 0);
+      A(S | W, MBEFORE, 0, 1);
       A(F, MBEFORE, 1, 1);
       A(F, MBEFORE, 0, 6);
-      A(C | B | H, MBEHIND, 0, 2);
-      A(S | B, MBEHIND, 1, 0);
-      A(S | B, MPOS, 0, P1);
-      A(C | B | H, MPOS, 1, PMID);
+      A(C | W, MBEHIND, 0, 2);
+      A(S | W, MBEHIND, 1, 0);
+      A(S | W, MPOS, 0, P1);
+      A(C | W | H, MPOS, 1, PMID);
       A(F, MPOS, 2, PSIZE);
-      A(S | B, MPOS, 2, P0);
-      A(C | B | H, SORTKEY);
-      A(C | B | H, SORTVAL);
+      A(S | W, MPOS, 2, P0);
+      A(C | W, SORTKEY);
+      A(C | W | H, SORTVAL);
       A(F | O, SORT);
       A(O, REPOSITION, 1);
-      A(C | B | O, ENSURE_DOUBLE);
-      A(F | B | O, ENSURE_CANPUT);
-      A(C | B | H | O, SHRINK);
-      A(F | B | O, SHRINK1);
-      A(F | B, ENSURE_SHRINK);
-      A(C | B | H | O, CLEAR);
-      A(C | B | H | O, CLEAR_REL);
-      A(C | B | H | O, ASSIGN_T_U);
-      A(S | B | O, ASSIGN_U_T);
-      A(C | B | H | O, SWAP);
-      A(F | B | O, MOVE_T_U);
-      A(F | B | O, COPYCTOR);
+      A(C | W | O, ENSURE_DOUBLE);
+      A(F | W | O, ENSURE_CANPUT);
+      A(C | W | H | O, SHRINK);
+      A(F | W | O | B, SHRINK1);
+      A(F | W | B, ENSURE_SHRINK);
+      A(C | W | H | O, CLEAR);
+      A(C | W | H | O, CLEAR_REL);
+      A(C | W | H | O, ASSIGN_T_U);
+      A(S | W | O, ASSIGN_U_T);
+      A(C | W | H | O, SWAP);
+      A(F | W | O, MOVE_T_U);
+      A(F | W | O, COPYCTOR);
       A(F | O, MOVECTOR);
-      A(C | B | H | O | L, MOVETOTABLE, 0);
-      A(C | B | O, MOVEFROMTABLE, 4);
-      A(F | B | O, COPYTOTABLE, 1);
-      A(S | B | O, SWAPWITHTABLE, 1);
+      A(C | W | H | O | L, MOVETOTABLE, 0);
+      A(C | W | O, MOVEFROMTABLE, 4);
+      A(F | W | O, COPYTOTABLE, 1);
+      A(S | W | O, SWAPWITHTABLE, 1);
       A(F | O, SWAPWITHTABLE, 4);
-      A(F | B | O, EQ);
+      A(F | W | O, EQ);
       A(F | O, KEYSETS);
       A(F | O, WOULDPUT, 4, 0, 2);
       A(F | O, WOULDPUT, 4, 0, 9);
       A(F | O, WOULDREMOVE, 0);
-      A(C | B | O, U_REMOVE, 1);
-      A(F | B | O, U_PUT, 0, 0, 7);
-      A(F | B | O, U_CLEAR);
-      A(C | B | H | O, IT_NEW, 0, 0, -1);
-      A(C | B | H | O, IT_NEW, 1, 1, -1);
-      A(F | B | O, IT_NEW, 0, 0, 1);
-      A(F | B | O, IT_NEW, 1, 1, 1);
-      A(C | B | H | O, IT_ADV, 0);
-      A(C | B | H | O, IT_ADV, 1);
-      A(C | B | O, IT_RET, 0);
+      A(C | W | O, U_REMOVE, 1);
+      A(F | W | O, U_PUT, 0, 0, 7);
+      A(F | W | O, U_CLEAR);
+      A(C | W | H | O, IT_NEW, 0, 0, -1);
+      A(C | W | O, IT_NEW, 1, 1, -1);
+      A(F | W | O, IT_NEW, 0, 0, 1);
+      A(F | W | O, IT_NEW, 1, 1, 1);
+      A(C | W | H | O, IT_ADV, 0);
+      A(C | W | H | O, IT_ADV, 1);
+      A(C | W | O, IT_RET, 0);
       A(F, IT_RET, 1);
-      A(C | B | O, IT_COPY);
-      A(F | B | O, IT_SWAP);
-      A(F | B, IT_FLIP, 0);
-      A(C | B | H | O, IT_DEL, 0);
-      A(C | B | H | O, IT_DEL, 1);
-      A(C | B | H | O, DESTROY_T);
+      A(C | W | O, IT_COPY);
+      A(F | W | O, IT_SWAP);
+      A(F | W, IT_FLIP, 0);
+      A(C | W | H | O, IT_DEL, 0);
+      A(C | W | O, IT_DEL, 1);
+      A(C | W | H | O, DESTROY_T);
       // arguments that are references into the table's own storage
       A(L, AL_PUTBEFORE, 4, 0, 2);
       A(L, AL_PUTBEHIND, 4, 0, 2);
@@ -171,23 +171,32 @@ public:
          S(7, 0, 0, -1);
          S(7, 0, 6, -1); S(7, 0, 8, -1);
          S(7, 0, 7, -1); S(7, 0, 7, 0); S(7, 0, 7, 1); S(7, 0, 7, 2);
-         if (thorough) { S(7, 0, 6, 1); S(7, 0, 8, 0); S(7, 0, 8, 1); S(7, 0, 8, 2); }
+         if (thorough && mask != M_CORE) { S(7, 0, 6, 1); S(7, 0, 8, 0); S(7, 0, 8, 1); S(7, 0, 8, 2); }
          break;
       case SS_SMALLQ:
          S(7, 0, 0, -1); S(7, 0, 7, 1);
-         if (thorough) { S(7, 0, 6, -1); S(7, 0, 8, 2); }
          break;
       case SS_ALIAS:
          S(7, 0, 6, -1); S(7, 0, 7, 1);
          break;
-      case SS_BOUND: {
-         const int caps[] = {253, 254, 255, 256, 127, 128};
-         for (int ci = 0; ci < (thorough ? 6 : 4); ci++) for (int d = 1; d >= 0; d--) for (int park = 0; park <= 2; park++) S(caps[ci], caps[ci], caps[ci] - d, park);
+      case SS_BOUND: {   // narrow alphabet, depth 3
+         const int caps[] = {254, 255, 253, 256, 127, 128};
+         for (int ci = 0; ci < (thorough ? 6 : 2); ci++) for (int d = 1; d >= 0; d--) for (int park = 0; park <= 2; park++) S(caps[ci], caps[ci], caps[ci] - d, park);
          // reverse crossing: a 16-bit-index table (300 slots) holding 254 / 255 entries; ShrinkToFit (after a Remove for 255) brings it back to 8-bit indices
-         for (int f = 254; f <= 255; f++) for (int park = 0; park <= 2; park++) S(254, 300, f, park);
+         for (int f = 254; f <= 255; f++) for (int park = 0; park <= 2; park++) if (thorough || park == 1) S(254, 300, f, park);
+         break; }
+      case SS_BOUNDW: {  // wide alphabet, depth 2
+         const int caps[] = {254, 255, 253, 256};
+         for (int ci = 0; ci < (thorough ? 4 : 2); ci++) for (int d = 1; d >= 0; d--) for (int park = 0; park <= 2; park++) if (thorough || park == 1) S(caps[ci], caps[ci], caps[ci] - d, park);
+         for (int f = 254; f <= 255; f++) for (int park = 0; park <= 2; park++) if (thorough ? true : (park == 1 && f == 254)) S(254, 300, f, park);
+         break; }
+      case SS_BOUNDD: {  // 26-operation alphabet, one more level
+         for (int c = 254; c <= 255; c++) for (int d = 1; d >= 0; d--) S(c, c, c - d, 1);
+         S(254, 300, 254, 1); S(254, 300, 255, 1);
          break; }
       case SS_HUGE: {
-         const int caps[] = {65533, 65534, 65535, 65536};
+         if (!thorough) { S(65534, 65534, 65534, 1); S(65535, 65535, 65535, 1); break; }
+         const int caps[] = {65534, 65535, 65533, 65536};
          for (int ci = 0; ci < 4; ci++) for (int d = 1; d >= 0; d--) S(caps[ci], caps[ci], caps[ci] - d, 1);
          S(65534, 70000, 65534, 1); S(65534, 70000, 65535, 1);
          break; }
